@@ -250,4 +250,73 @@ example :
       = .diag ⟨⟨2, 2⟩, .ts, 0, 0, 0, [], [], some 2, false⟩ := by
   decide
 
+/-! ## a configuration the client has not announced -/
+
+/-- The client's configuration becomes `k` WITHOUT a `didChangeConfiguration`: from now on its
+`workspace/configuration` answers carry `k`. -/
+def silently (k : CfgV) (w : Client × State) : Client × State := ({ w.1 with ck := k }, w.2)
+
+/-- **Configuration learnt only through a pull is applied piecemeal.** Open under configuration 0;
+the client's configuration silently becomes 1; a `didChange` pulls it. The publication takes the
+severity and the parser options from configuration 1 but the `LintGroup` is still the one built
+under configuration 0 (it is rebuilt only on creation, on a dictionary change and by
+`didChangeConfiguration`) — a mixture that is the fresh lint under neither configuration, and not
+`truth`. Recorded finding `c09-linter-config-only-on-notification`
+(corpus `witness-linter-config-only-on-notification`). -/
+theorem linter_config_only_on_notification :
+    let w1 := seqRun (Client.init, State.init) [.disk 0 (some tA), .msg (.didOpen 0 .markdown tA)]
+    let w2 := seqRun (silently 1 w1) [.msg (.didChange 0 tB)]
+    w2.2.config = 1 ∧
+    w2.2.outbox 0 = .diag ⟨tB, .markdown, 1, 0, 1, [], [], none, false⟩ ∧
+    truth w2.1 w2.2 0 = .diag ⟨tB, .markdown, 1, 1, 1, [], [], none, false⟩ := by
+  decide
+
+/-- **After a `didChangeConfiguration` everything is current** (the hard requirement). From ANY
+structurally sound state (`WeakAt`: the right documents are loaded, in the client's languages,
+without identifier dictionary; text, configuration facets, dictionaries, `Backend::config` and last
+publications arbitrary — in particular `Backend::config` may ALREADY equal the announced
+configuration because an earlier pull wrote it), once the handler of a
+`didChangeConfiguration(k)` that finds disk = buffer has finished, `Latest` holds for the client
+configuration `k`: every open document's last publication has severity, linter and parser facets
+`k`, the newest text and the current dictionaries. A handler that skips rebuilding the linters when
+`Backend::config` already holds the new settings violates exactly this. -/
+theorem latest_after_notification (c : Client) (s : State) (k : CfgV) (order : List Url)
+    (hW : ∀ v, WeakAt c s v) (hd : ∀ u, DiskIsBuf c s u)
+    (ho : ∀ u, u ∈ order ↔ (s.docs u).isSome = true) :
+    Latest { c with ck := k } (handle k s (.didChangeConfiguration k order)) :=
+  inv_latest (config_repairs hW k order hd ho)
+
+/-- non-vacuity, and the scenario of the finding repaired by the notification: the stale state of
+`linter_config_only_on_notification` (after the editor wrote the file) satisfies the hypotheses … -/
+example :
+    let w1 := seqRun (Client.init, State.init) [.disk 0 (some tA), .msg (.didOpen 0 .markdown tA)]
+    let w2 := seqRun (silently 1 w1) [.msg (.didChange 0 tB), .disk 0 (some tB)]
+    (∀ v, WeakAt w2.1 w2.2 v) ∧ (∀ u, DiskIsBuf w2.1 w2.2 u) ∧
+    (∀ u, u ∈ [0] ↔ (w2.2.docs u).isSome = true) := by
+  simp [seqRun, seqStep, silently, clientStep, handle, prog, update, publishSegs, runSeq, step,
+      replaceDoc, lintSendDoc, publish, setF, Client.init, State.init, tA, tB, dictDiffers, WeakAt,
+      DiskIsBuf, pubOf]
+  refine ⟨fun v => ?_, fun u t l => ?_, fun u => ?_⟩
+  · by_cases h : v = 0 <;> simp [h]
+  · by_cases h : u = 0 <;> simp [h]
+    intro h1 _; exact h1.symm ▸ rfl
+  · by_cases h : u = 0 <;> simp [h]
+
+/-- … and the notification of configuration 1 (which `Backend::config` already holds) makes the
+linter facet current -/
+example :
+    let w1 := seqRun (Client.init, State.init) [.disk 0 (some tA), .msg (.didOpen 0 .markdown tA)]
+    let w2 := seqRun (silently 1 w1) [.msg (.didChange 0 tB), .disk 0 (some tB)]
+    let w3 := seqRun w2 [.msg (.didChangeConfiguration 1 [0])]
+    w2.2.config = 1 ∧ w3.2.outbox 0 = .diag ⟨tB, .markdown, 1, 1, 1, [], [], none, false⟩ ∧
+    w3.2.outbox 0 = truth w3.1 w3.2 0 := by
+  decide
+
+/-- every state reached by a history that satisfies `OpOk` is structurally sound for whatever the
+client's configuration silently becomes -/
+theorem sound_after_sequential (ops : List Op) (h : HistOk (Client.init, State.init) ops) (k : CfgV) :
+    ∀ v, WeakAt { (seqRun (Client.init, State.init) ops).1 with ck := k }
+      (seqRun (Client.init, State.init) ops).2 v :=
+  (seq_inv ops _ inv_init h).weak k
+
 end Harper.C09
